@@ -37,7 +37,7 @@ L6 == Cmp(">", Col("t2", "Cc"), Col("y", "a"))
 
 MC_LeafPool_S == {L1, L2}
 MC_LeafPool_Q == {L1, L2, L3, L4}
-MC_LeafPool_T == {L1, L2, L3, L4, L5}
+MC_LeafPool_T == {L1, L2, L3, L4, L5, L6}
 
 \* leaves tried one at a time: every operator with every operand on one side
 SomeOperands == {Col("", "a"), Col("t1", "b"), IntL(7), StrL("p"), BoolL(FALSE)}
@@ -111,7 +111,7 @@ MC_AllSlices  == SliceNames \ {"given"}
 MC_Given      == {"given"}
 
 \* ---------------------------------------------------------------- generators
-CONSTANTS EmitMode    \* "full" : ast + tokens with marks ; "toks" : tokens only
+CONSTANTS EmitMode    \* "full" : ast + tokens with marks ; "toks" : tokens only ; "off" : nothing is printed
 
 Tok3(s) == [i \in DOMAIN s |-> <<s[i].t, s[i].v, s[i].o>>]
 Tok2(s) == [i \in DOMAIN s |-> <<s[i].t, s[i].v>>]
@@ -125,16 +125,15 @@ SeqPick == /\ ast = ShowD /\ form = "LO" /\ rest = <<>> /\ toks = <<>> /\ junk =
 SeqNext == \E tk \in Vocab \cup Vocab2 : JunkInsert(tk)
 
 Emit ==
-  IF EmitMode = "full"
+  IF EmitMode = "off" THEN TRUE
+  ELSE IF EmitMode = "full"
   THEN PrintT(<<"SCN", ToJson([junk |-> junk', form |-> form', ast |-> ast', toks |-> Tok3(toks'), nt |-> NonTrivial(ast')])>>)
   ELSE PrintT(<<"SCN", ToJson([junk |-> junk', toks |-> Tok2(toks')])>>)
 
 \* the ghost statement stays out of the fingerprint
 View == <<form, rest, toks, junk, tail>>
 
-\* sanity of the bounded universe itself (checked in the small configuration)
-UniverseOK ==
-  /\ Slices \subseteq SliceNames
-  /\ \A s \in UniverseOf(Slices) : /\ s.k \in StmtKinds
-                                   /\ \A c \in StmtConds(s) : c.k \in {"cmp", "and", "or"} => Expressible(c)
+\* sanity of the bounded universe itself: every condition of a picked statement is one that text
+\* without parentheses can express, and the machine keeps its types
+ConditionsExpressible == \A c \in StmtConds(ast) : c.k \in {"cmp", "and", "or"} => Expressible(c)
 =============================================================================
